@@ -29,6 +29,7 @@ void harness(void)
 	c19_obj_t *file, *cmp;
 	sqfs_u8 vd, vs;
 	bool order = verif_nd_bool("order");
+	unsigned fid, cid;
 	long live0;
 
 	VERIF_ASSUME(rc0 == 1);
@@ -37,6 +38,8 @@ void harness(void)
 
 	file = c19_obj_new(frc);
 	cmp = c19_obj_new(crc);
+	fid = file->id;
+	cid = cmp->id;
 	o = malloc(sizeof(*o));
 	o->base.refcount = rc0;
 	o->base.destroy = meta_reader_destroy;
@@ -63,7 +66,7 @@ void harness(void)
 		     o->base.copy == meta_reader_copy && o->file == (sqfs_file_t *)file &&
 		     o->cmp == (sqfs_compressor_t *)cmp && o->data[k] == vd &&
 		     o->scratch[k] == vs, C19_OB("frame"));
-	VERIF_ASSERT(!g_obj_destroyed[file->id] && !g_obj_destroyed[cmp->id],
+	VERIF_ASSERT(!g_obj_destroyed[fid] && !g_obj_destroyed[cid],
 		     C19_OB("frame"));
 
 	if (c == NULL) {
@@ -102,22 +105,22 @@ void harness(void)
 
 	if (c != NULL && order) {
 		sqfs_drop(o);
-		VERIF_ASSERT(!g_obj_destroyed[file->id] && !g_obj_destroyed[cmp->id],
+		VERIF_ASSERT(!g_obj_destroyed[fid] && !g_obj_destroyed[cid],
 			     C19_OB("release.shared_alive"));
 		sqfs_drop(c);
 	} else {
 		if (c != NULL) {
 			sqfs_drop(c);
-			VERIF_ASSERT(!g_obj_destroyed[file->id] &&
-				     !g_obj_destroyed[cmp->id],
+			VERIF_ASSERT(!g_obj_destroyed[fid] &&
+				     !g_obj_destroyed[cid],
 				     C19_OB("release.shared_alive"));
 		}
 		sqfs_drop(o);
 	}
 	/* all readers gone: the shared objects lost exactly the reader's
 	 * reference(s) and die iff that was the last one */
-	VERIF_ASSERT(g_obj_destroyed[file->id] == (frc == 1) &&
-		     g_obj_destroyed[cmp->id] == (crc == 1) &&
+	VERIF_ASSERT(g_obj_destroyed[fid] == (frc == 1) &&
+		     g_obj_destroyed[cid] == (crc == 1) &&
 		     g_obj_double_destroy == 0, C19_OB("release.shared_balance"));
 	if (frc > 1) {
 		VERIF_ASSERT(file->base.refcount == frc - 1, C19_OB("release.shared_balance"));
